@@ -56,12 +56,6 @@ out-of-domain argument.  `AnswersOrPanics x` is the property's wording; it is `x
 
 ## Open (no theorem in the tree yet)
 
-* `SelectZeroSmall` (no theorem), and the *builders* of `SelectSmall` / `SelectZeroSmall` /
-  `Select9`: invariant ⇒ query is proved for `SelectSmall` and `Select9`
-  (`small_select_never_oob`, `select9_never_oob` below take `SelInvOK` / `S9InvOK` as a
-  hypothesis); "builder establishes the invariant" is checked per instance by
-  `selInvCheck_sound` / `s9InvCheck_sound`, not proved for all inputs.
-  Owner: `SuxModel/Props/C02Small9.lean`.
 * `BitFieldVec::copy` called outside its documented preconditions (`start > src.len`,
   `to > dst.len`, different widths): C10 proves it total only under the preconditions
   (+ the width-0 panic); `apply_in_place` with a callback returning a value that does not fit.
@@ -409,8 +403,8 @@ example := (adaptWithSpan_never_oob "new" 0 3 Adapt.exWs Adapt.exLen (by decide)
 
 end SelectAdapt
 
-/-! ## Selection, `SelectSmall` and `Select9` (`src/rank_sel/select_small.rs`, `select9.rs`) — from
-C02 (part B, in progress) -/
+/-! ## Selection, `SelectSmall`, `SelectZeroSmall` and `Select9` (`src/rank_sel/select_small.rs`,
+`select9.rs`) — from C02 (query from the invariant, and end to end through the builders) -/
 
 section SelectSmall
 open Sux.RS
@@ -444,6 +438,44 @@ theorem select9_never_oob (ws : Array Nat) (len : Nat) (hlen : len ≤ 64 * ws.s
   · exact ne_oob_of_ok (h2 hr)
   · obtain ⟨p, hp, -⟩ := h1 (by omega)
     exact ne_oob_of_ok hp
+
+/-- end to end: `Select9::new(Rank9::new(bits))` then `select(r)`, for EVERY backend of 64-bit words
+(arbitrary stale bits beyond `len`) and EVERY `r`: both builders return and the query answers.
+From `RS.select9_over_rank9_select_correct`. -/
+theorem select9_built_never_oob (ws : Array Nat) (len : Nat) (hw : WordsOK 64 ws)
+    (hlen : len ≤ 64 * ws.size) (hl64 : len < 2 ^ 64) :
+    ∃ counts n1 s, Rank9.build ws len = .ok counts ∧ Rank9.numOnes counts = .ok n1 ∧
+      Select9.build ws len n1 (Select9.viewOfCounts counts) = .ok s ∧
+      ∀ r, Select9.select ws (Select9.viewOfCounts counts) n1 s r ≠ .oob := by
+  obtain ⟨counts, n1, hc, hn, -, s, hs, -, hq⟩ := select9_over_rank9_select_correct ws len hw hlen hl64
+  exact ⟨counts, n1, s, hc, hn, hs, fun r => ne_oob_of_ok (hq r)⟩
+
+/-- end to end: `SelectSmall::with_inv(rank_small![k; bits], b)` then `select(r)` for EVERY `r`.
+From `RS.small_over_rankSmall_select_correct`. -/
+theorem small_built_never_oob (k b : Nat) (ws : Array Nat) (len : Nat) (hlen : len ≤ 64 * ws.size)
+    (h1 : b * ((Priv.smallParams k).wpb * 64) < 2 ^ 64)
+    (h2 : numOnes ws len * (b * ((Priv.smallParams k).wpb * 64)) < 2 ^ 64) :
+    ∃ x s, RankSmall.build (RankSmall.variant k) ws len = .ok x ∧
+      Small.buildWithInv (Priv.smallParams k) false ws len x.numOnes b = .ok s ∧
+      ∀ r, Small.select (Priv.smallParams k) false ws len x.numOnes (Small.viewOfIdx x) s r ≠ .oob := by
+  obtain ⟨x, hx, -, s, hs, hq⟩ := small_over_rankSmall_select_correct k b ws len hlen h1 h2
+  exact ⟨x, s, hx, hs, fun r => ne_oob_of_ok (hq r)⟩
+
+/-- end to end: `SelectZeroSmall::with_inv(rank_small![k; bits], b)` then `select_zero(r)` for EVERY
+`r`.  From `RS.small_over_rankSmall_select_zero_correct`. -/
+theorem smallZero_built_never_oob (k b : Nat) (ws : Array Nat) (len : Nat) (hlen : len ≤ 64 * ws.size)
+    (h1 : b * ((Priv.smallParams k).wpb * 64) < 2 ^ 64)
+    (h2 : numZeros ws len * (b * ((Priv.smallParams k).wpb * 64)) < 2 ^ 64) :
+    ∃ x s, RankSmall.build (RankSmall.variant k) ws len = .ok x ∧
+      Small.buildWithInv (Priv.smallParams k) true ws len (len - x.numOnes) b = .ok s ∧
+      ∀ r, Small.select (Priv.smallParams k) true ws len (len - x.numOnes) (Small.viewOfIdx x) s r
+        ≠ .oob := by
+  obtain ⟨x, hx, -, s, hs, hq⟩ := small_over_rankSmall_select_zero_correct k b ws len hlen h1 h2
+  exact ⟨x, s, hx, hs, fun r => ne_oob_of_ok (hq r)⟩
+
+example := select9_built_never_oob exWsScan exLenScan exWsScan_ok exWsScan_len (by decide)
+example := small_built_never_oob 4 8 RS.exWs RS.exLen (by decide) (by decide) (by decide)
+example := smallZero_built_never_oob 0 8 RS.exWs RS.exLen (by decide) (by decide) (by decide)
 
 -- every rank on 1100 set bits over 20 full words (180 stale ones after bit 1100)
 example : ∀ r, Select9.select exWs9 (Select9.viewOf exWs9 exLen9) (numOnes exWs9 exLen9) exS9 r ≠ .oob :=
